@@ -181,6 +181,7 @@ SemLit(s, lOK, rOK) ==
 HasSemanticLiteral(T) == T # <<>> /\ SemLit(T, TRUE, TRUE)
 
 (* consistency of the specification itself *)
-RulesAgree(T) == Violations(T) = ViolationsCF(T)
+(* (a repetition with incompatible bounds denotes no number of copies: nothing else is compared) *)
+RulesAgree(T) == "bounds" \in CommonViolations(T) \/ Violations(T) = ViolationsCF(T)
 NeverSometimesRooted(T) == ViolationsCF(T) = {} => RootOf(T) # "sometimes"
 =============================================================================
